@@ -9,7 +9,11 @@ ItemMenu(s) ==
     LET us == Candidates(s) \cup {NoUid} IN
     {[op |-> "Create", p |-> PCreate(<<"ENCRYPT">>, <<>>)],
      [op |-> "Create", p |-> [otype |-> "SymmetricKey", attrs |-> <<A("Cryptographic Algorithm", "AES")>>]],   \* fails
-     [op |-> "Register", p |-> PRegister("SecretData", <<"DERIVE_KEY">>, <<AI("Name", 0, "n1"), AI("Name", 1, "n1")>>)]}   \* duplicate name: fails
+     [op |-> "Register", p |-> PRegister("SecretData", <<"DERIVE_KEY">>, <<AI("Name", 0, "n1"), AI("Name", 1, "n1")>>)],   \* duplicate name: fails
+     \* key pair whose PRIVATE template is rejected after the public key has been prepared
+     [op |-> "CreateKeyPair", p |-> [common |-> <<A("Cryptographic Algorithm", "RSA"), A("Cryptographic Length", 1024)>>,
+                                     pub |-> <<A("Cryptographic Usage Mask", <<"VERIFY">>)>>,
+                                     priv |-> <<A("Cryptographic Usage Mask", <<"SIGN">>), AI("Name", 0, "d"), AI("Name", 1, "d")>>]]}
     \cup {[op |-> "Activate", p |-> PUid(u)] : u \in us}
     \cup {[op |-> "Destroy", p |-> PUid(u)] : u \in us}
     \cup {[op |-> "Revoke", p |-> PRevoke(u, c)] : u \in us, c \in {"KEY_COMPROMISE", "UNSPECIFIED"}}
@@ -23,7 +27,10 @@ EdgeItems(s) ==
     LET us == (DOMAIN s.objs) \cup {NoUid} IN
     {[op |-> "Create", p |-> PCreate(<<"ENCRYPT">>, <<>>)],
      [op |-> "Create", p |-> [otype |-> "SymmetricKey", attrs |-> <<A("Cryptographic Algorithm", "AES")>>]],
-     [op |-> "Register", p |-> PRegister("SecretData", <<"DERIVE_KEY">>, <<AI("Name", 0, "n1"), AI("Name", 1, "n1")>>)]}
+     [op |-> "Register", p |-> PRegister("SecretData", <<"DERIVE_KEY">>, <<AI("Name", 0, "n1"), AI("Name", 1, "n1")>>)],
+     [op |-> "CreateKeyPair", p |-> [common |-> <<A("Cryptographic Algorithm", "RSA"), A("Cryptographic Length", 1024)>>,
+                                     pub |-> <<A("Cryptographic Usage Mask", <<"VERIFY">>)>>,
+                                     priv |-> <<A("Cryptographic Usage Mask", <<"SIGN">>), AI("Name", 0, "d"), AI("Name", 1, "d")>>]]}
     \cup {[op |-> "Activate", p |-> PUid(u)] : u \in us}
     \cup {[op |-> "Destroy", p |-> PUid(u)] : u \in us}
     \cup {[op |-> "ModifyAttribute", p |-> [uid |-> u, attr |-> AI("Name", 0, "n2")]] : u \in us}
